@@ -26,18 +26,37 @@ def showOptNat : Option Nat → String
   | some n => toString n
   | none => "-"
 
+/-- The harness numbers only the channels an application can see (created locally or announced by a
+`datachannel` event); channels created while nobody listens stay `silent` in the model. -/
+def toModelIdx (e : Ep) (k : Nat) : Nat :=
+  let rec go (cs : List Chan) (i k : Nat) : Nat :=
+    match cs with
+    | [] => i + k
+    | c :: cs => if c.silent then go cs (i + 1) k else match k with
+      | 0 => i
+      | k + 1 => go cs (i + 1) k
+  go e.chans 0 k
+
+def toVisibleIdx (e : Ep) (i : Nat) : Nat := ((e.chans.take i).filter fun c => !c.silent).length
+
+def mapInput (e : Ep) : Input → Input
+  | .send ch s d => .send (toModelIdx e ch) s d
+  | .close ch => .close (toModelIdx e ch)
+  | .threshold ch v => .threshold (toModelIdx e ch) v
+  | i => i
+
 def showOut (e : Ep) : Out → String
   | .tx d => "tx:" ++ toHex d
   | .timerStart t => "ts:" ++ t
   | .timerCancel t => "tc:" ++ t
   | .task n => "task:" ++ n
-  | .evOpen i => s!"open:{i}"
-  | .evClose i => s!"close:{i}"
-  | .evLow i => s!"low:{i}"
-  | .evMessage i isStr d => s!"msg:{i}:{if isStr then "s" else "b"}:{toHex d}"
+  | .evOpen i => s!"open:{toVisibleIdx e i}"
+  | .evClose i => s!"close:{toVisibleIdx e i}"
+  | .evLow i => s!"low:{toVisibleIdx e i}"
+  | .evMessage i isStr d => s!"msg:{toVisibleIdx e i}:{if isStr then "s" else "b"}:{toHex d}"
   | .evChannel i =>
     match e.chans[i]? with
-    | some c => s!"chan:{i}:{showOptNat c.id}:{toHex c.label}:{toHex c.protocol}:{showBool c.ordered}:{showOptNat c.maxRetransmits}:{showOptNat c.maxPacketLifeTime}"
+    | some c => s!"chan:{toVisibleIdx e i}:{showOptNat c.id}:{toHex c.label}:{toHex c.protocol}:{showBool c.ordered}:{showOptNat c.maxRetransmits}:{showOptNat c.maxPacketLifeTime}"
     | none => s!"chan:{i}:?"
   | .exc k => "exc:" ++ k
   | .crash k => "crash:" ++ k
@@ -59,7 +78,7 @@ def runTrace (isServer : Bool) (tag tsn : Nat) (steps : List String) : String :=
       | nowS :: op =>
         match parseInt? nowS, parseInput op with
         | some now, some inp =>
-          let (e', outs) := step e now inp
+          let (e', outs) := step e now (mapInput e inp)
           let line := ",".intercalate (outs.map (showOut e')) ++ "#" ++ showPublic e'
           go e' (line :: acc) rest
         | _, _ => ("bad-step" :: acc).reverse
